@@ -55,6 +55,22 @@ class LeafM( Component ):
     def up_call():
       s.out @= s.add( s.in_ )
 
+class LeafS( Component ):
+  # bit slices of the child's own signals materialised by connections inside the child
+  def construct( s ):
+    s.in_ = InPort( Bits8 ); s.out = OutPort( Bits8 ); s.w = Wire( Bits8 )
+    s.w[0:4] //= s.in_[4:8]; s.w[4:8] //= s.in_[0:4]
+    s.out //= s.w
+
+class LeafT( Component ):
+  # bit slices only inside update blocks
+  def construct( s ):
+    s.in_ = InPort( Bits8 ); s.out = OutPort( Bits8 )
+    @update
+    def up_lo(): s.out[0:4] @= s.in_[4:8]
+    @update
+    def up_hi(): s.out[4:8] @= s.in_[0:4] + 1
+
 class Mid( Component ):
   def construct( s, Leaves ):
     n = len( Leaves )
@@ -74,6 +90,13 @@ class Top( Component ):
       s.c = Leaves[0](); s.c.in_ //= s.in_
       @update
       def up_top(): s.out @= s.c.out + 2
+    elif kind == 'attr-slices':
+      # the parent drives the child nibble-wise through slices of the child's port and reads a slice of its output in a block
+      s.c = Leaves[0](); s.c.in_[0:4] //= s.in_[0:4]; s.c.in_[4:8] //= s.in_[4:8]
+      @update
+      def up_top():
+        s.out[0:4] @= s.c.out[4:8]
+        s.out[4:8] @= s.c.out[0:4]
     elif kind == 'list':
       s.cs = [ L() for L in Leaves ]
       s.cs[0].in_ //= s.in_; s.cs[1].in_ //= s.cs[0].out; s.cs[2].in_ //= s.cs[1].out; s.out //= s.cs[2].out
@@ -119,6 +142,11 @@ def cases():
     for a,b in (('LeafA','LeafB'),('LeafB','LeafA'),('LeafA','LeafC'),('LeafC','LeafA'),('LeafC','LeafB'),('LeafA','LeafA'),('LeafA','LeafM'),('LeafM','LeafA')):
       for how in ('class','obj','twice'):
         out.append(dict(kind=kind,old=a,new=b,how=how))
+  # bit slices of the replaced / replacing component's signals: created by connections inside the child, by its update blocks, by the parent
+  for kind in ('attr','list','deep','attr-slices'):
+    for a,b in (('LeafS','LeafT'),('LeafT','LeafS'),('LeafA','LeafS'),('LeafS','LeafA'),('LeafT','LeafA'),('LeafA','LeafT'),('LeafS','LeafS')):
+      for how in ('class','twice'):
+        out.append(dict(kind=kind,old=a,new=b,how=how))
   return out
 
 def trace(top,seed,n=6):
@@ -138,8 +166,8 @@ def check_case(repo,c,seed):
   m=_mod(); out=[]
   Old=getattr(m,c['old']); New=getattr(m,c['new'])
   def victim(top):
-    return {'attr':lambda: top.c,'attr-block':lambda: top.c,'list':lambda: top.cs[1],'deep':lambda: top.m.lanes[1]}[c['kind']]()
-  pos={'attr':0,'attr-block':0,'list':1,'deep':1}[c['kind']]
+    return {'attr':lambda: top.c,'attr-block':lambda: top.c,'attr-slices':lambda: top.c,'list':lambda: top.cs[1],'deep':lambda: top.m.lanes[1]}[c['kind']]()
+  pos={'attr':0,'attr-block':0,'attr-slices':0,'list':1,'deep':1}[c['kind']]
   top=m.Top(c['kind'],[Old,Old,Old]); top.elaborate()
   try:
     if c['how']=='class': top.replace_component(victim(top),New)
@@ -157,6 +185,11 @@ def check_case(repo,c,seed):
     if a[k]!=b[k]:
       da=[x for x in a[k] if x not in b[k]][:3]; db=[x for x in b[k] if x not in a[k]][:3]
       out.append(f"metadata '{k}' differs from a from-scratch build: only after replacement {da}; only in the fresh build {db}")
+  from pymtl3.dsl.Connectable import Signal
+  for x in top.get_all_object_filter(lambda x: isinstance(x,Signal)):
+    try: same = eval(repr(x),{'s':top}) is x
+    except Exception: same=False
+    if not same: out.append(f"the registered signal {x!r} is not the object found under its name in the design"); break
   for k,v in a.items():
     if '<deleted>' in repr(v): out.append(f"metadata '{k}' still refers to an object of the removed component: {[x for x in v if '<deleted>' in repr(x)][:2]}")
   if not out:
